@@ -70,7 +70,15 @@ class RecSpecs:
         rt = ev.rtype_key(sf)
         args = []
         for (pn, pt) in sf.params:
-            args += self.flat(env[pn])
+            a = env[pn]
+            if sf.body is None and a.t != MATHINT and types.kind(a.t) == 'string':
+                # an uninterpreted function sees a byte sequence through its abstract value
+                from . import values as V
+                args.append(V.strkey(a, None if ev.quant else ev.st))
+                if ev.quant:
+                    ev.st.assume(V.strkey_axiom())
+            else:
+                args += self.flat(a)
         if sf.body is None:
             lv = {}
             for (p, s, role) in self.leaves_of(rt):
